@@ -71,12 +71,60 @@ FEATURES = {
     "nested_caps": "message A { message B { int32 x = 1; message C { int32 z = 1; } C c = 2; } enum E { E_ZERO = 0; E_ONE = 1; } B b = 1; E e = 2; repeated B bs = 3; map<string, B> bm = 4; } message TypeA { message X1 { int32 y = 1; } X1 x = 1; A.B ab = 2; A.B.C abc = 3; } message HTTPServer { message TLSConfig { bool on = 1; } TLSConfig tls = 1; }",
     # members whose names start with a digit once the enum-name prefix is stripped (the plugin emits _1, _2_0)
     "enum_digit_members": "enum Version { VERSION_UNSPECIFIED = 0; VERSION_1 = 1; VERSION_2_0 = 2; V3 = 3; version_4 = 4; } message M { Version v = 1; repeated Version r = 2; }",
+    "builtin_list_dict": "message M { int32 list = 1; repeated int32 a = 2; map<string, int32> dict = 3; map<string, int32> m = 4; optional int32 o = 5; }",
     "builtin_int": "message M { int64 int = 1; repeated int32 a = 2; optional int64 b = 3; map<string, sint32> c = 4; oneof g { uint32 d = 5; string e = 6; } }",
     "builtin_str": "message M { string str = 1; repeated string a = 2; optional string b = 3; map<string, string> c = 4; oneof g { string d = 5; int32 e = 6; } }",
     "builtin_float": "message M { double float = 1; repeated float a = 2; optional double b = 3; map<int32, float> c = 4; oneof g { float d = 5; int32 e = 6; } }",
     "builtin_bool": "message M { bool bool = 1; repeated bool a = 2; optional bool b = 3; map<string, bool> c = 4; oneof g { bool d = 5; int32 e = 6; } }",
     "builtin_bytes": "message M { bytes bytes = 1; repeated bytes a = 2; optional bytes b = 3; map<string, bytes> c = 4; oneof g { bytes d = 5; int32 e = 6; } }",
 }
+
+
+# Multi-file / multi-package layouts that single packages cannot show.  Every set is generated, imported (also with each
+# package imported FIRST in a fresh interpreter) and compared like any other program.
+_P3 = 'syntax = "proto3";\n'
+EXTRA_SETS: Dict[str, Dict[str, str]] = {
+    # a package that defines nothing but enums, used from another package
+    "enum_only_pkg": {
+        "xe_enums.proto": _P3 + "package vfx.enums;\nenum Color { COLOR_UNSPECIFIED = 0; COLOR_RED = 1; COLOR_NEG = -1; }\nenum Size { SMALL = 0; LARGE = 2; }\n",
+        "xe_user.proto": _P3 + 'package vfx.user;\nimport "xe_enums.proto";\nmessage M { vfx.enums.Color c = 1; repeated vfx.enums.Size s = 2; '
+                         "map<string, vfx.enums.Color> m = 3; oneof g { vfx.enums.Size os = 4; int32 oi = 5; } optional vfx.enums.Color oc = 6; }\n",
+    },
+    # files are acyclic, PACKAGES are not: one package spread over two non-consecutive files
+    "package_cycle": {
+        "pc_users_defs.proto": _P3 + "package vfshop.users;\nmessage User { string name = 1; repeated int32 scores = 2; }\nenum Role { ROLE_NONE = 0; ROLE_ADMIN = 1; }\n",
+        "pc_orders.proto": _P3 + 'package vfshop.orders;\nimport "pc_users_defs.proto";\nmessage Order { vfshop.users.User buyer = 1; vfshop.users.Role role = 2; '
+                           "map<string, vfshop.users.User> watchers = 3; optional int64 id = 4; }\n",
+        "pc_users_hist.proto": _P3 + 'package vfshop.users;\nimport "pc_orders.proto";\nimport "pc_users_defs.proto";\nmessage History { repeated vfshop.orders.Order orders = 1; User owner = 2; '
+                               "oneof last { vfshop.orders.Order last_order = 3; string note = 4; } }\n",
+    },
+    # the package-less (root) protos and a child package referring to each other
+    "root_cycle": {
+        "rc_root_defs.proto": _P3 + "message RootMsg { int32 x = 1; message Inner { string s = 1; } Inner inner = 2; }\nenum RootKind { ROOT_KIND_ZERO = 0; ROOT_KIND_ONE = 1; }\n",
+        "rc_child.proto": _P3 + 'package vfkid;\nimport "rc_root_defs.proto";\nmessage Kid { RootMsg r = 1; RootMsg.Inner ri = 2; RootKind k = 3; repeated RootMsg rs = 4; }\n',
+        "rc_root_refs.proto": _P3 + 'import "rc_child.proto";\nmessage RootUser { vfkid.Kid kid = 1; map<string, vfkid.Kid> kids = 2; }\n',
+    },
+    # deprecation: an RPC only (no deprecated message / field in the package); deprecated fields whose proto name is not
+    # their Python name
+    "deprecated_rpc_only": {
+        "dr_svc.proto": _P3 + "package vfdep.rpc;\nmessage Req { int32 x = 1; }\nmessage Rep { int32 y = 1; }\n"
+                        "service Legacy { rpc Old(Req) returns (Rep) { option deprecated = true; } rpc Current(Req) returns (Rep); "
+                        "rpc OldStream(Req) returns (stream Rep) { option deprecated = true; } }\n",
+        "dr_fields.proto": _P3 + "package vfdep.fields;\nmessage M { int32 userId = 1 [deprecated = true]; string HTTPStatus = 2 [deprecated = true]; "
+                           "bool from = 3 [deprecated = true]; int32 plain = 4; }\n",
+    },
+    # user types named like names the runtime itself imports / defines
+    "named_like_library": {
+        "nl_types.proto": _P3 + "package vfnames;\nmessage Duration { int32 minutes = 1; string label = 2; }\nmessage Timestamp { int64 ticks = 1; }\n"
+                          "message Any { string what = 1; }\nmessage Message { int32 id = 1; }\nmessage Type { int32 t = 1; }\nmessage Casing { int32 c = 1; }\n"
+                          "message Holder { Duration max_duration = 1; Timestamp at = 2; repeated Any anys = 3; map<string, Message> msgs = 4; "
+                          "oneof g { Type type_choice = 5; Casing casing_choice = 6; } optional Duration opt_d = 7; }\n",
+    },
+}
+
+
+def extra_names() -> List[str]:
+    return sorted(EXTRA_SETS)
 
 
 def feature_protos() -> Dict[str, str]:
@@ -105,6 +153,8 @@ def item_protos(item: dict) -> Dict[str, str]:
         return inputs_protos(item["dir"])
     if k == "literal":
         return item["protos"]
+    if k == "extra":
+        return dict(EXTRA_SETS[item["name"]])
     raise KeyError(k)
 
 
@@ -114,6 +164,8 @@ def item_name(item: dict) -> str:
         return f"gen:{item['seed']}"
     if k == "inputs":
         return f"inputs:{item['dir']}"
+    if k == "extra":
+        return f"extra:{item['name']}"
     return k + (":" + item["plugin_opts"] if item.get("plugin_opts") else "")
 
 
@@ -136,7 +188,9 @@ def value_items(tier: str, seed: int, n_gen: int, with_inputs: bool = True) -> L
     # the matrix schema also as generated under the other typing / dataclass options (one sampled shard each):
     # the runtime reads the classes' type hints, which look different there (X | None, list[...], pydantic)
     items: List[dict] = [{"kind": "matrix"}, {"kind": "handmade"}, {"kind": "matrix", "plugin_opts": "typing.310"},
-                         {"kind": "matrix", "plugin_opts": "pydantic_dataclasses"}, {"kind": "features"}]
+                         {"kind": "matrix", "plugin_opts": "pydantic_dataclasses"}, {"kind": "features"},
+                         {"kind": "extra", "name": "named_like_library"}, {"kind": "extra", "name": "enum_only_pkg"},
+                         {"kind": "extra", "name": "deprecated_rpc_only"}, {"kind": "extra", "name": "package_cycle"}]
     for i in range(n_gen):
         items.append({"kind": "gen", "seed": seed * 100003 + i, "opts": {"services": False}})
     if with_inputs:
